@@ -1,5 +1,5 @@
 """C04 — one wildcard relation decides queries, deletes and notifications (structural clauses)."""
-from ..ir import callee, short, walk, ctor_name, pat_variants, guards, AnchorMissing
+from ..ir import callee, short, walk, ctor_name, pat_variants, guards, strip_not, AnchorMissing
 from ..trace import Tracer, ok_exits, base
 from ..prov import Bindings
 from .common import *
@@ -555,4 +555,110 @@ def rule_f(prog, rep):
 
 
 
-RULES = [('C04.f', rule_f), ('C04.e', rule_e), ('C04.a', rule_a), ('C04.b', rule_b), ('C04.c', rule_c), ('C04.d', rule_d)]
+def rule_g(prog, rep):
+    rep.rule('C04.g', 'T3', 'traversal errors propagate and keys are rebuilt faithfully: the result of every store traversal call '
+             '(ncollect_matches, ndelete_matches, ndelete_child_matches, ncollect_matching_children and their entry points) is '
+             'consumed by `?` or returned - a dropped IllegalMultiWildcard would make one operation accept a pattern another '
+             'rejects; the MultiWildcard arm of every traversal rejects a non-empty tail; every descent into a child pushes that '
+             "child's segment onto the traversed path before it recurses (the reported keys are what the relation matched)")
+    crate = prog.crate(WB)
+    TRAV = ('ncollect_matches', 'ndelete_matches', 'ndelete_child_matches', 'ncollect_matching_children')
+    n = 0
+    for f in crate.top_fns():
+        if not f.path.startswith(STORE + '::'):
+            continue
+        for nd, anc in crate.walk_fn(f):
+            if nd.get('k') != 'call' or not callee(nd).startswith(STORE + '::') or short(callee(nd)) not in TRAV:
+                continue
+            n += 1
+            chain = [a for a in anc if isinstance(a, dict)]
+            par = chain[-1] if chain else {}
+            if par.get('k') == 'await':
+                par = chain[-2] if len(chain) > 1 else {}
+            inst = f'{short(f.path)}->{short(callee(nd))}'
+            tail_ok = par.get('k') in ('try', 'return') or (par.get('k') == 'block' and par.get('tail') is nd and len(chain) <= 2)
+            if tail_ok:
+                rep.ok('C04.g', inst, loc(f, nd), 'result propagated')
+            else:
+                how = short(callee(par)) if par.get('k') == 'call' else par.get('k')
+                rep.violation('C04.g', inst, loc(f, nd), f'the traversal result is not propagated (consumed by `{how}`)',
+                              key=f'C04.g/{inst}/dropped/{how}')
+    rep.floor('C04.g', n, 12, 'traversal call sites')
+    # trailing-# check in every traversal that has a MultiWildcard arm
+    for name in ('ncollect_matches', 'ndelete_matches', 'ncollect_matching_children'):
+        f = crate.fn(f'{STORE}::{name}')
+        b = Bindings(crate, f)
+        m = _keyseg_match(crate, f)
+        arm = _arm_of(m, 'MultiWildcard')
+        good = False
+        if arm is not None and name == 'ncollect_matching_children':
+            # a child listing pattern never contains `#`: the arm is an unconditional Err
+            body = arm['body']
+            while body.get('k') == 'block' and not body.get('tail') and len(body.get('stmts', [])) == 1:
+                body = body['stmts'][0]
+            while body.get('k') == 'block' and not body.get('stmts') and body.get('tail'):
+                body = body['tail']
+            good = body.get('k') == 'return' and 'IllegalMultiWildcard' in str(body)[:3000]
+            if good:
+                rep.ok('C04.g', f'{name}:trailing-#', f.loc, '`#` in a child-listing pattern -> Err(IllegalMultiWildcard), unconditionally')
+                continue
+        elif arm is not None:
+            for nd, anc in walk(arm['body']):
+                if nd.get('k') == 'if':
+                    c, pol = strip_not(nd['cond'])
+                    if c.get('k') == 'call' and short(callee(c)) == 'is_empty' and pol is False and _is_tail_origin(b, c['args'][0]):
+                        good = any(x.get('k') == 'return' and 'IllegalMultiWildcard' in str(x)[:3000] for x, _ in walk(nd['then']))
+        if good:
+            rep.ok('C04.g', f'{name}:trailing-#', f.loc, '`#` with a non-empty tail -> Err(IllegalMultiWildcard)')
+        else:
+            rep.violation('C04.g', f'{name}:trailing-#', f.loc, 'the MultiWildcard arm does not reject a non-empty tail with IllegalMultiWildcard',
+                          key=f'C04.g/{name}/trailing-hash')
+    # path reconstruction
+    for name in TRAV:
+        f = crate.fn(f'{STORE}::{name}')
+        b = Bindings(crate, f)
+        bad = []
+        k = 0
+        for nd, anc in crate.walk_fn(f):
+            if nd.get('k') != 'call' or not callee(nd).startswith(STORE + '::') or short(callee(nd)) not in TRAV:
+                continue
+            if short(callee(nd)) == 'ndelete_child_matches' or (name == 'ncollect_matches' and False):
+                continue   # pushes inside (checked on ndelete_child_matches itself)
+            # which child does this call descend into?  (first argument derives from get_child / tree iteration)
+            a0 = b.origins(nd['args'][0])
+            if a0 == {'param(node)'}:
+                continue   # same node (e.g. `#` collects the subtree of the node itself)
+            k += 1
+            # the traversed-path argument must be a local that received push(<that child's key>) before the call
+            tp = nd['args'][1]
+            pushes = [x for x, _ in crate.walk_fn(f) if x.get('k') == 'call' and short(callee(x)) == 'push' and x['args'] and
+                      x['args'][0].get('k') in ('path', 'ref') and _same_local(x['args'][0], tp) and (x.get('ln') or 0) <= (nd.get('ln') or 0)]
+            if not pushes:
+                bad.append(f'{short(callee(nd))}@descent-without-push')
+        if name == 'ndelete_child_matches':
+            pushes = [x for x, a_ in crate.walk_fn(f) if x.get('k') == 'call' and short(callee(x)) == 'push' and
+                      b.origins(x['args'][1]) == {'param(id)'} and not [g for g in guards(a_ + (x,))]]
+            if len(pushes) != 1:
+                bad.append('no unconditional traversed_path.push(id)')
+        if bad:
+            rep.violation('C04.g', f'{name}:path', f.loc, 'a descent does not extend the traversed path by the child it enters: ' + ', '.join(sorted(set(bad))),
+                          key=f'C04.g/{name}/path/' + '|'.join(sorted(set(bad))))
+        else:
+            rep.ok('C04.g', f'{name}:path', f.loc, f'{k} descents, each after push(<child key>) on the path it passes')
+
+
+def _same_local(a, b_):
+    while isinstance(a, dict) and a.get('k') in ('ref', 'unary'):
+        a = a['e']
+    while isinstance(b_, dict) and b_.get('k') in ('ref', 'unary'):
+        b_ = b_['e']
+    return a.get('k') == 'path' and b_.get('k') == 'path' and a.get('id') is not None and a.get('id') == b_.get('id')
+
+
+def _is_tail_origin(b, e):
+    """`tail` = &path[1..] of the pattern parameter"""
+    o = b.origins(e)
+    return bool(o) and all(x.startswith('param(') and x.endswith('[i]') for x in o)
+
+
+RULES = [('C04.f', rule_f), ('C04.g', rule_g), ('C04.e', rule_e), ('C04.a', rule_a), ('C04.b', rule_b), ('C04.c', rule_c), ('C04.d', rule_d)]
